@@ -578,6 +578,12 @@ fn exec(case: &W1ACase, ctx: &mut Ctx) {
     let Some(impact_rule) = rule_at(case.impact_rule) else { return };
     let n_examples: usize = result_rules.iter().map(|r| r.examples.as_ref().map(|e| e.len()).unwrap_or(0)).sum();
 
+    if case.base_cache != -1 {
+        ctx.probe("existing_router_warmed_before_the_analyses");
+    }
+    if !case.base_churn.is_empty() {
+        ctx.probe("existing_router_with_rules_inserted_and_removed_before");
+    }
     let res = guard(ctx, "project and standalone analyses", || {
         let mut base_router = Router::<Rule>::from_config(config.clone());
         for r in &base_rules {
